@@ -7,7 +7,7 @@ LEVEL = "proof"
 PROP = "C10"
 RULE = ("files: entries dicts of arity 1-4 with 0-3 entries, coordinate and common magnitudes independently in each word-size class, "
         "row-id arrays of length 0-3 with values up to 2**32-1; foreign files in all 16 (W, R) word-size pairs wide enough; stub arrays "
-        "for totals crossing 2**30 / 2**32; every well-formed unsigned index of the state scope; every cut point of every file. "
+        "for totals crossing 2**30 / 2**32; sparse files of 4-16 GiB apparent size (first and last row of every entry written) loaded whole; every well-formed unsigned index of the state scope; every cut point of every file. "
         "A case is one file (or one cut); all are distinct by construction")
 EXPECT = {
     "C10": ["roundtrip/common-equal", "roundtrip/keys-equal", "roundtrip/rowids-equal", "roundtrip/rebuilt-index-equal-and-valid"],
